@@ -1006,6 +1006,50 @@ def check_C08(chk):
                     exp.append((True, "sdone", "s" + e[1], None))
             if pe != exp:
                 chk.violation("suite-fixtures", "suite fixture / suite end sequence %s; expected %s" % (pe, exp), rp())
+    # ---- a test stopped by its time limit is a dying test: what ran before the limit ran out is a prefix of the
+    # sequence, nothing runs after it (no teardown of a body that was cut short, no teardown entered twice, no tally)
+    import check_timeout
+    status = check_timeout.timeout_status()
+    timed = []
+    for k, (where, fixt, arm, mode) in enumerate((("body", "ctx", "env", "forked"), ("teardown", "ctx", "env", "forked"), ("body", "suite", "die_in", "forked"),
+                                                  ("teardown", "suite", "env", "forked"), ("body", "ctx", "die_in", "inproc"), ("setup", "ctx", "env", "forked"))):
+        slow = ("raw", "sleep 3000" if k % 2 == 0 else "spin")
+        body = [("c", 1)] + ([slow] if where == "body" else [])
+        if arm == "die_in":
+            body.insert(0, ("raw", "die_in 1"))
+        t = L.Test(2, body=body, ctx_setup=(fixt == "ctx"), ctx_teardown=(fixt == "ctx"),
+                   setup=[slow] if where == "setup" else [], teardown=[slow] if where == "teardown" else [("c", 1)])
+        # model steps: AReset, [Mark setup], Mark body, the check, [Mark teardown, its check]
+        t.model_kill = ({"setup": 2, "body": 4, "teardown": 5}[where], "exit", status)
+        t.model_body = [("c", 1)]
+        suite = L.Suite(0, has_setup=(fixt == "suite"), has_teardown=(fixt == "suite"),
+                        children=[L.Test(1, body=[("c", 1)], ctx_teardown=True), t, L.Test(3, body=[("c", 1)], ctx_setup=True)])
+        timed.append((suite, "text", mode, {"CGREEN_PER_TEST_TIMEOUT": "1"} if arm == "env" else {}, t, where))
+    lines = []
+    for root, rep, mode, env, t, where in timed:
+        real = (t.body, t.setup, t.teardown)
+        t.body = t.model_body
+        t.setup = [a for a in t.setup if a[0] != "raw"]
+        t.teardown = [a for a in t.teardown if a[0] != "raw"]
+        lines.append(L.model_case(root, rep, mode))
+        t.body, t.setup, t.teardown = real
+    tmrs = [L.ModelResult(l) for l in vlib.run_model("runner", lines)]
+    with ThreadPoolExecutor(vlib.NPROC) as ex:
+        truns = list(ex.map(lambda c: L.run_impl(drv, c[0], c[1], c[2], timeout=30, env_extra=c[3]), timed))
+    for (root, rep, mode, env, t, where), run, mr in zip(timed, truns, tmrs):
+        chk.case(("timed", where, mode, str(env), L.node_sexp(root)))
+        chk.count("timed:limit-runs-out-in-" + where)
+        rp = replay_of(root, rep, mode, {"env": env, "exit": run.exit, "log": [list(map(str, x)) for x in run.log][:120]})
+        if run.timeout:
+            chk.violation("nontermination", "run with a time limit did not terminate", rp)
+            continue
+        ev = test_events(run, root)
+        for name in ([t.name] if mode != "forked" else [tt.name for s_, tt in root.tests()]):
+            got = [k for pid, k in ev.get(name, [])]
+            exp = mr.traces.get(name, [])
+            if got != exp:
+                chk.violation("phase-order-timed", "test %s (its time limit runs out in its %s, %s fixtures) ran %s; expected %s" % (
+                    name, where, "suite-level" if root.has_setup else "context", got, exp), rp)
     return chk.finish()
 
 
